@@ -591,6 +591,56 @@ impl<'a, 'tcx> M<'a, 'tcx> {
         }
     }
 
+    /// Closures / fn items whose reference was coerced (`&{closure}` -> `&dyn Fn(..)`) or copied into `local`.
+    fn dyn_closure_of(&self, body: &mir::Body<'tcx>, local: Local, depth: u32) -> Vec<String> {
+        let tcx = self.tcx;
+        let mut out: Vec<String> = Vec::new();
+        if depth == 0 {
+            return out;
+        }
+        let name_of = |t: ty::Ty<'tcx>| -> Option<String> {
+            let mut t = t;
+            while let ty::Ref(_, i, _) = t.kind() {
+                t = *i;
+            }
+            match t.kind() {
+                ty::Closure(d, _) => Some(tcx.def_path_str(*d)),
+                ty::FnDef(d, _) => Some(tcx.def_path_str(*d)),
+                _ => None,
+            }
+        };
+        for data in body.basic_blocks.iter() {
+            for st in &data.statements {
+                if let StatementKind::Assign(b) = &st.kind {
+                    let (place, rv) = &**b;
+                    if place.local != local || !place.projection.is_empty() {
+                        continue;
+                    }
+                    let src: Option<&mir::Operand<'tcx>> = match rv {
+                        Rvalue::Cast(_, o, _) => Some(o),
+                        Rvalue::Use(o, ..) => Some(o),
+                        _ => None,
+                    };
+                    if let Some(o) = src {
+                        if let Some(n) = name_of(o.ty(&body.local_decls, tcx)) {
+                            out.push(n);
+                        } else if let Some(p) = o.place() {
+                            if p.projection.is_empty() {
+                                out.extend(self.dyn_closure_of(body, p.local, depth - 1));
+                            }
+                        }
+                    }
+                    if let Rvalue::Ref(_, _, p) = rv {
+                        if let Some(n) = name_of(p.ty(&body.local_decls, tcx).ty) {
+                            out.push(n);
+                        }
+                    }
+                }
+            }
+        }
+        out
+    }
+
     fn rvalue(&self, rv: &Rvalue<'tcx>) -> String {
         match rv {
             Rvalue::Use(o, ..) => format!("{{\"k\":\"use\",\"ops\":[{}]}}", self.operand(o)),
@@ -790,6 +840,19 @@ impl<'a, 'tcx> M<'a, 'tcx> {
                         }
                         if let ty::FnDef(fd, _) = at.kind() {
                             clos.push(js(&tcx.def_path_str(*fd)));
+                        }
+                        // `f(&|x| ..)` where f takes `&dyn Fn(..)`: the closure reference was unsize-coerced into a local first
+                        if let ty::Dynamic(..) = at.kind() {
+                            if let Some(p) = a.node.place() {
+                                if p.projection.is_empty() {
+                                    for c in self.dyn_closure_of(body, p.local, 4) {
+                                        let c = js(&c);
+                                        if !clos.contains(&c) {
+                                            clos.push(c);
+                                        }
+                                    }
+                                }
+                            }
                         }
                     }
                     let ops: Vec<String> = args.iter().map(|a| self.operand(&a.node)).collect();
